@@ -318,6 +318,8 @@ fn pool() -> &'static Vec<String> {
             "0", "0.0", "0.04", "0.1", "0.3", "0.5", "0.6", "0.7", "0.70", "0.8", "1", "1.0", "10", "7", "07", "00.7", ".7",
             "16777216", "16777217", "99999999999999999999999999999999999999999", "340282350000000000000000000000000000000",
             "0.0000000000000000000000000000000000000000000001", "0.69999999", "0.7000001",
+            // neighbouring f32 values (one unit in the last place apart) and numbers closer to each other than f32::EPSILON
+            "0.70000005", "0.69999993", "0.0000001", "0.0000002", "1.0000001", "0.99999994", "0.50000006",
         ];
         let minors = ["A", "a", "B", "F", "f", "Z", "z", "M"];
         let patches = ["", "0", "00", "1", "2", "9", "10", "15", "64", "007", "18446744073709551615"];
